@@ -103,8 +103,8 @@ add("C07", "TestC07", "fault_enumeration",
     "fault enumeration (every cut point of generated streams) + grammar-generated version strings, rapid-driven", "DESIGN.md §4 C07")
 
 add("C08", "TestC08", "exploration",
-    dict(cases=16000, shards=8, extra=[dict(test="TestC08Ladder", shards=8), dict(test="TestC08LargeOrder", shards=4)]),
-    dict(cases=400000, shards=16, timeout_s=3000, extra=[dict(test="TestC08Ladder", shards=16), dict(test="TestC08LargeOrder", shards=8)]),
+    dict(cases=16000, shards=8, extra=[dict(test="TestC08Ladder", shards=8), dict(test="TestC08LargeOrder", shards=4), dict(test="TestC08ConcurrentBuilds", shards=1)]),
+    dict(cases=400000, shards=16, timeout_s=3000, extra=[dict(test="TestC08Ladder", shards=16), dict(test="TestC08LargeOrder", shards=8), dict(test="TestC08ConcurrentBuilds", shards=1)]),
     "a 140000-key list with ONE violation at every power-of-two index +-2, multiples of 65536 and 10000, and the ends; valid lists (K1..K6/Krand up to 10^4 keys) with 1..3 injected order violations at drawn indexes (equal neighbours, swapped neighbours, key followed by its own prefix, 0x7f/0x80 and 0xff/0x00 pairs in signed order), valid controls, and key sets whose single-branch run has a drawn length around the 16-bit step boundary; plus the enumerated step ladder L in {0,1,2,255..257,32767,32768,65534..65537,70000,131071,131072,200000}+-2 x 4 placements x 4 modes x dedup x values; non-trivial = violation not at the first/last index, or L within +-2 of a power-of-two boundary",
     "Generated-input search: independent strict-order predicate => (error with cause ErrKeyOutOfOrder and nil trie) for every invalid list, acceptance for every valid list within the documented 16 KiB key length; whatever is accepted must find every key it was built from with its value (Get and RangeGet).",
     "Trusted: bytes.Compare as the order predicate; reference model.",
